@@ -33,6 +33,15 @@ const rule = "time-lines: interval 1 s or 2 s, 1-16 writers each looping a scrip
 // local wall clock, and harness and library must agree on it.
 func init() {
 	seed, _ := strconv.Atoi(os.Getenv("VERIF_SEED"))
+	// each step of the check is a process of its own: together they cover a zone east of UTC, one
+	// west of it (where local names read as UTC lie in the future) and one with a 30-minute offset
+	for _, a := range os.Args {
+		if strings.Contains(a, "Edges") {
+			seed++
+		} else if strings.Contains(a, "Stalled") {
+			seed += 2
+		}
+	}
 	zones := []*time.Location{time.FixedZone("+0530", 19800), time.FixedZone("-0800", -28800), time.FixedZone("+0100", 3600)}
 	time.Local = zones[((seed%len(zones))+len(zones))%len(zones)]
 }
@@ -156,7 +165,7 @@ func runTimeline(tl timeline, dir string) outcome {
 	interval := time.Duration(tl.IntervalS) * time.Second
 	newApp := func() *log.RollingFileAppender {
 		return &log.RollingFileAppender{AppenderBase: log.AppenderBase{Name: "r"}, Layout: recLayout{},
-			FileDir: dir, FileName: tl.Name, Rotation: log.TimeRotation{Interval: interval}, MaxAge: 1000}
+			FileDir: dir, FileName: tl.Name, Rotation: log.TimeRotation{Interval: interval}, MaxAge: int32([]int{1000, 1, 3}[len(tl.Writers)%3])}
 	}
 	app := newApp()
 	if tl.LateStartMS > 0 {
@@ -468,7 +477,7 @@ func startAcross(base string, interval time.Duration, apps, afterMS int, fresh b
 			dir := filepath.Join(base, strconv.Itoa(i))
 			_ = os.MkdirAll(dir, 0o755)
 			mk := func() *log.RollingFileAppender {
-				return &log.RollingFileAppender{AppenderBase: log.AppenderBase{Name: "r"}, FileDir: dir, FileName: "e.log", Rotation: log.TimeRotation{Interval: interval}, MaxAge: 1000}
+				return &log.RollingFileAppender{AppenderBase: log.AppenderBase{Name: "r"}, FileDir: dir, FileName: "e.log", Rotation: log.TimeRotation{Interval: interval}, MaxAge: 2} // a short maximum age: nothing written today is older
 			}
 			app := mk()
 			if err := app.Start(); err != nil {
@@ -507,7 +516,7 @@ func startAcross(base string, interval time.Duration, apps, afterMS int, fresh b
 }
 
 func idleResume(dir string, interval time.Duration, writers, burst, idle, offMS, rounds int) error {
-	app := &log.RollingFileAppender{AppenderBase: log.AppenderBase{Name: "r"}, FileDir: dir, FileName: "e.log", Rotation: log.TimeRotation{Interval: interval}, MaxAge: 1000}
+	app := &log.RollingFileAppender{AppenderBase: log.AppenderBase{Name: "r"}, FileDir: dir, FileName: "e.log", Rotation: log.TimeRotation{Interval: interval}, MaxAge: 2} // a short maximum age: nothing written today is older
 	if err := app.Start(); err != nil {
 		return fmt.Errorf("VERIF-INCONCLUSIVE: %v", err)
 	}
